@@ -56,10 +56,13 @@ static void oneshot(uint64_t in_id, int len, int full_sweep)
 		cpu_set_level(cpus[ci]);
 		for (int level = 0; level <= 3; level++)
 			for (int gz = 0; gz < 5; gz++)
-				for (int fh = 0; fh < 6; fh++) {
+				for (int fh = 0; fh < 8; fh++) {
 					/* huff: 0 default tables, 1 static (RFC fixed) tables, 2 a hostile custom table (the bytes the inputs are made of
 					 * have 13..15-bit codes, so Huffman coding EXPANDS the data); tables only matter at level 0 */
-					int flush = (fh & 1) * 2, huff = fh >> 1;
+					/* fh 6,7: the caller leaves end_of_stream at 0 (as isal_deflate_stateless_init sets it): with NO_FLUSH the call still
+					 * produces a complete stream (the library treats a one-shot NO_FLUSH call as final); with FULL_FLUSH it produces a
+					 * byte-aligned non-final prefix without trailer */
+					int flush = (fh & 1) * 2, huff = fh >= 6 ? 0 : fh >> 1, eos = fh < 6;
 					if (huff && level)
 						continue;
 					if (!full_sweep && (gz == 2 || gz == 4))
@@ -77,12 +80,12 @@ static void oneshot(uint64_t in_id, int len, int full_sweep)
 						g_readonly(in, 1);
 						uint8_t *out = g_alloc(ao, G_END); /* exactly avail_out bytes, then an inaccessible page */
 						int r = -1000;
-						snprintf(key, sizeof key, "stateless level=%d wrapper=%s flush=%s tables=%s cpu=%s input=%s avail_out=bound%+ld", level, gz_name[gz], flush_name[flush],
+						snprintf(key, sizeof key, "stateless level=%d wrapper=%s flush=%s%s tables=%s cpu=%s input=%s avail_out=bound%+ld", level, gz_name[gz], flush_name[flush], eos ? "" : " end_of_stream=0",
 							 huff == 0 ? "default" : huff == 1 ? "static" : "hostile-custom", cpu_level_name[cpus[ci]], in_name, (long)ao - (long)bound);
 						if (V_TRY()) {
 							isal_deflate_stateless_init(s);
 							s->level = level; s->level_buf = lb; s->level_buf_size = level ? lvl_min[level] : 0;
-							s->gzip_flag = gz; s->flush = flush; s->end_of_stream = 1;
+							s->gzip_flag = gz; s->flush = flush; s->end_of_stream = eos;
 							if (huff == 1)
 								isal_deflate_set_hufftables(s, NULL, IGZIP_HUFFTABLE_STATIC);
 							else if (huff == 2)
@@ -107,8 +110,9 @@ static void oneshot(uint64_t in_id, int len, int full_sweep)
 							} else if (produced > bound) {
 								v_violation(key, "produced %zu bytes, more than the documented bound %zu", produced, bound);
 								bad = 1;
-							} else if (vc_add(v_hash(out, produced, in_id * 8 + gz))) {
-								if (!verify_deflate_output(out, produced, gz, IN, len, 0, 0, NULL, 0, why, sizeof why)) {
+							} else if (vc_add(v_hash(out, produced, in_id * 16 + gz * 2 + eos))) {
+								int prefix = !eos && flush == FULL_FLUSH; /* non-final, byte-aligned, no trailer */
+								if (!verify_deflate_output(out, produced, gz, IN, len, prefix, 0, NULL, 0, why, sizeof why)) {
 									v_violation(key, "COMP_OK but the stream is not complete/valid (truncated stream reported as success?): %s", why);
 									bad = 1;
 								}
